@@ -329,6 +329,10 @@ def run(ctx, rep):
     fieldwriters_rules(facts, rep)     # reported as C18/C03-FIELDWRITERS: nothing replaces the parsed DOS timestamp afterwards
     meta_rules(facts, rep)             # reported as C18/C14-META: a raw copy re-writes the source's DOS words whatever they are (no validity filter)
     panic_rule(ctx, rep, "C18-PANIC", facts, is_time_root, void_rules=void)
+    # conversion code that E0 inlined into the header writers (a private `DateTime::to_msdos()` helper is no function of its own any
+    # more): the panic-capable sites of the two header writers that lie in types.rs are conversion sites too
+    panic_rule(ctx, rep, "C18-PANIC", facts, lambda f_: re.search(r"^write::write_(local_file|central_directory)_header$", f_.path) is not None, void_rules=void,
+               only=lambda s_: str(s_.where).startswith("src/types.rs"))
     rep.floor("C18-PANIC", 10)
     rep.floor("C18-BITS", 10)
     if ctx.tier == "thorough":
